@@ -203,3 +203,128 @@ func c16InboundMulti(r *mc.Report, c c16Case, w *mwire, nodeP **mnode, peers *[]
 	}
 	return fmt.Sprintf("accepted=%d(%s) late=%v free=%d/%d delivered=%d again=%d", acc, who, late.accepted, free, c.Limit, delivered, acc2)
 }
+
+// ---- outbound: gossip rounds while earlier transfers are still in progress ----
+//
+// A real node with outbound limit L knows three scripted peers (table entries with a known
+// radius). Each peer either declines every offer or accepts and then never waits for the
+// dial, which keeps that transfer in progress until the dial times out. Three gossip
+// rounds of fresh content: at once, two virtual seconds later (held transfers still in
+// progress), and after everything has timed out. Counted at the peers: the OFFERs that
+// really arrive. Clauses: a round never starts more transfers than there are slots not
+// held by transfers still in progress; after activity has ceased a round again starts
+// min(L, 3) transfers and the controller reports L free slots.
+
+func c16OutMultiCases(thorough bool) []c16Case {
+	var cs []c16Case
+	beh := []string{"accept-never-waits", "declined"}
+	for _, a := range beh {
+		for _, b := range beh {
+			for _, c := range beh {
+				for _, lim := range []int{1, 2} {
+					for ver := 0; ver <= 1; ver++ {
+						if !thorough && ver == 0 && lim == 1 {
+							continue
+						}
+						cs = append(cs, c16Case{Dir: "out-multi", Peers: []string{a, b, c}, Ver: ver, Limit: lim, StopAt: -1})
+					}
+				}
+			}
+		}
+	}
+	return cs
+}
+
+func c16OutboundMulti(r *mc.Report, c c16Case, w *mwire, nodeP **mnode, peers *[]*mnode, decide func(int, mdgram) pumpAction, viol func(string, string, string)) string {
+	node := newMNode(w, mnodeOpts{keyIdx: 11, versions: []uint8{0, 1}, utpLimit: c.Limit})
+	*nodeP = node
+	var offers [3]atomic.Int32
+	var ps []*mnode
+	for i := 0; i < 3; i++ {
+		i := i
+		p := newMNode(w, mnodeOpts{keyIdx: 12 + i, versions: []uint8{uint8(c.Ver)}, puppet: func(from enode.ID, msg []byte) []byte {
+			if len(msg) == 0 || msg[0] != portalwire.OFFER {
+				return nil
+			}
+			offers[i].Add(1)
+			o := &portalwire.Offer{}
+			if o.UnmarshalSSZ(msg[1:]) != nil {
+				return nil
+			}
+			if c.Peers[i] == "declined" {
+				return c16Accept(c.Ver, len(o.ContentKeys), nil, 0)
+			}
+			return c16Accept(c.Ver, len(o.ContentKeys), []int{0}, uint16(0x2000+i))
+		}})
+		ps = append(ps, p)
+		node.P.AddEnr(p.Self()) // table entry with a radius that covers everything
+	}
+	*peers = ps
+	total := func() (n int) {
+		for i := range offers {
+			n += int(offers[i].Load())
+		}
+		return
+	}
+	holdingOf := func(before [3]int32) (n int) { // offers of this round that went to peers which keep the transfer open
+		for i := range offers {
+			if c.Peers[i] == "accept-never-waits" {
+				n += int(offers[i].Load() - before[i])
+			}
+		}
+		return
+	}
+	snap := func() (b [3]int32) {
+		for i := range offers {
+			b[i] = offers[i].Load()
+		}
+		return
+	}
+	gossip := func(tag string) {
+		k, v := []byte("c16-out-multi-"+tag), bytes.Repeat([]byte{7}, 3000)
+		node.P.Put(k, node.P.ToContentId(k), v)
+		node.P.Gossip(nil, [][]byte{k}, [][]byte{v})
+	}
+	site := fmt.Sprintf("outbound-multi:%v", c.Peers)
+	if _, f := node.P.VerifPermits(); f != c.Limit {
+		viol("all-slots-free-initially", "utpController", fmt.Sprintf("limit %d but %d outbound slots free", c.Limit, f))
+	}
+	// round 1
+	b0 := snap()
+	t0 := time.Now()
+	gossip("1")
+	w.pump(func() bool { return time.Since(t0) > time.Second }, 5*time.Second, decide)
+	n1, hold1 := total(), holdingOf(b0)
+	if n1 > c.Limit {
+		viol("never-more-than-the-limit-in-progress", "outbound-multi:one-gossip-round", fmt.Sprintf("limit %d: one gossip round sent %d offers", c.Limit, n1))
+	}
+	// round 2, while the transfers accepted in round 1 are still dialling
+	w.pump(func() bool { return time.Since(t0) > 2*time.Second }, 5*time.Second, decide)
+	b1 := snap()
+	gossip("2")
+	w.pump(func() bool { return time.Since(t0) > 3*time.Second }, 5*time.Second, decide)
+	n2 := total() - n1
+	if hold1+n2 > c.Limit {
+		viol("never-more-than-the-limit-in-progress", "outbound-multi:gossip-during-transfers", fmt.Sprintf("limit %d: %d transfers accepted in the first round are still in progress (their peers never wait for the dial) and a second gossip round sent %d further offers", c.Limit, hold1, n2))
+	}
+	_ = b1
+	// everything times out; then a third round
+	w.pump(func() bool { return false }, 5*time.Minute, decide)
+	_, free := node.P.VerifPermits()
+	if free != c.Limit {
+		viol("all-slots-available-after-activity-ceased", site, fmt.Sprintf("limit %d, %d outbound slots free 5 virtual minutes after the last event", c.Limit, free))
+	}
+	before3 := total()
+	t3 := time.Now()
+	gossip("3")
+	w.pump(func() bool { return time.Since(t3) > time.Second }, 5*time.Second, decide)
+	n3 := total() - before3
+	if want := minInt(c.Limit, 3); free == c.Limit && n3 != want {
+		viol("all-slots-available-after-activity-ceased", "outbound-multi:further-gossip", fmt.Sprintf("limit %d and the controller reports %d free slots, but a gossip round to 3 covered peers sent %d offers (want %d)", c.Limit, free, n3, want))
+	}
+	w.pump(func() bool { return false }, 5*time.Minute, decide)
+	if _, f := node.P.VerifPermits(); f != c.Limit {
+		viol("all-slots-available-after-activity-ceased", site+":after-third-round", fmt.Sprintf("limit %d, %d outbound slots free at the end", c.Limit, f))
+	}
+	return fmt.Sprintf("round1=%d(holding %d) round2=%d free=%d/%d round3=%d", n1, hold1, n2, free, c.Limit, n3)
+}
